@@ -98,8 +98,13 @@ def _sz_worker(job_file, out_file):
         n = len(a["kinds"])
         names, entries = [], []
         for i, k in enumerate(a["kinds"], start=1):
-            nm = (f"d{i}" if k == "dir" else f"e{i}.bin") if rng.random() < 0.6 else \
-                (f"sub{i}/d{i}" if k == "dir" else f"sub{i}/é{i}.bin")
+            r_ = rng.random()
+            if r_ < 0.5:
+                nm = f"d{i}" if k == "dir" else f"e{i}.bin"
+            elif r_ < 0.75:
+                nm = f"sub{i}/d{i}" if k == "dir" else f"sub{i}/é{i}.bin"
+            else:       # UTF-16 code units with a zero LOW byte after an ASCII character (U+0100, U+0300, U+4E00)
+                nm = rng.choice([f"x\u4e00{i}/a\u0300{i}", f"d\u0100{i}", f"a\u0300e\u0301 {i}"]) + ("" if k == "dir" else ".bin")
             sz_ = rng.randint(16, 700) if k == "file" else 0
             if k == "file" and rng.random() < 0.5:
                 data = rng.randbytes(12) + (b"lorem ipsum %d " % i) * (sz_ // 10)
@@ -392,20 +397,81 @@ def _member_part(ctx):
     return len(cases), n_arch
 
 
+CFG_CONST = "CONSTANTS BufferValues = {32768}\n LimitValues = {100000, 300000}\n MaxCalls = %d\n Deviations = {%s}\n"
+
+
+def _config_part(ctx, pool):
+    """Members within limits under configuration histories (ArchiveCfg / ArchiveCfgTrace)."""
+    ev, v = ctx.ev, ctx.v
+    jobs = [("ArchiveCfg sensitivity: deviation UnsetFallsBackToBuffer must violate Inv_LimitKept", "UnsetFallsBackToBuffer",
+             "Inv_LimitKept", pool.submit(run_tlc, "ArchiveCfg", "SPECIFICATION Spec\n" + CFG_CONST % (2, '"UnsetFallsBackToBuffer"')
+                                          + "INVARIANT Inv_LimitKept\n", scratch=ctx.scratch, expect_fail=True, timeout=600, workers=2))]
+    dump = ctx.scratch / "cfggen.dump"
+    rg = run_tlc("ArchiveCfg", "SPECIFICATION Spec\n" + CFG_CONST % (2, "") + "INVARIANT Inv_LimitKept\n", scratch=ctx.scratch,
+                 dump=dump, workers=4)
+    ev.tlc("ArchiveCfg: all configuration histories of <= 2 calls keep an unspecified limit (Inv_LimitKept); = cases", rg)
+    f = dump if dump.exists() else Path(str(dump) + ".dump")
+    hist = [[{k: c[k] for k in ("buffer_size", "max_memory_size", "max_workers", "enable_parallel")} for c in st["calls"]]
+            for st in iter_dump(f)]
+    if len(hist) != rg.distinct:
+        raise MachineryError(f"ArchiveCfg dump has {len(hist)} states, TLC reported {rg.distinct}")
+    hist.sort(key=lambda h: json.dumps(h, sort_keys=True))
+    rng = random.Random(ctx.seed * 7368787 + 29)
+    nbig = 40 if ctx.thorough else 6
+    bigs = set(rng.sample(range(len(hist)), nbig))
+    hs = [{"id": f"h{n}", "calls": h, "seed": rng.randrange(1 << 30), "big": n in bigs} for n, h in enumerate(hist)]
+    nw = 8
+    procs = []
+    for w in range(nw):
+        jf, of = ctx.scratch / f"cfg-job{w}.json", ctx.scratch / f"cfg-out{w}.json"
+        jf.write_text(json.dumps({"wroot": str(ctx.scratch / f"cfg-w{w}"), "histories": hs[w::nw]}))
+        procs.append((of, subprocess.Popen([PY, "-m", "mbv.c10_cfg", str(jf), str(of)], env=child_env(), cwd=str(VERIF),
+                                           stdout=subprocess.PIPE, stderr=subprocess.PIPE, text=True)))
+    traces = []
+    for of, p in procs:
+        so, se = p.communicate(timeout=2400)
+        if p.returncode != 0:
+            raise MachineryError(f"configuration worker failed:\n{se[-2500:]}")
+        traces.extend(json.loads(of.read_text()))
+    traces.sort(key=lambda t: int(t["id"][1:]))
+    br = validate("ArchiveCfgTrace", "SPECIFICATION TraceSpec\nCONSTRAINT TraceAccept\n" + CFG_CONST % (0, ""), traces,
+                  scratch=ctx.scratch, parallel=4, min_chunk=150, timeout=900)
+    ev.tlc_counts("ArchiveCfgTrace: probes after every configure call", br.distinct, br.states, br.wall_s)
+    for t, tv in zip(traces, br.verdicts):
+        if tv.accepted:
+            v.ok(1)
+            if len(t["ev"]) > 1:
+                ev.nontrivial(("cfg", json.dumps([e for e in t["ev"] if e["a"] == "Configure"])))
+            continue
+        k = max(tv.reached, 0)
+        e = t["ev"][min(k, len(t["ev"]) - 1)]
+        calls = [{x: y for x, y in c.items() if x != "a" and y} for c in t["ev"][:k + 1] if c["a"] == "Configure"]
+        v.violation(what=(f"configuration history {calls} (configure_archive_extraction called with exactly these parameters; "
+                          f"0 / absent = not passed): probe {e.get('fmt')} with members of {e.get('sizes')} bytes yielded "
+                          f"{e.get('yielded')}; a member must come out iff its size <= the max_memory_size last given "
+                          f"explicitly (default 10485760): an unspecified parameter keeps its value"),
+                    case={"calls": calls}, observed=t["ev"], where="archive_extractor.py:configure_archive_extraction / size checks")
+    ev.replayed(len(traces))
+    ev.sample({"configuration history": [e for e in traces[len(traces) // 2]["ev"]]})
+    return jobs, len(traces)
+
+
 def run(ctx):
     _validate_writer(ctx)
     pool = ThreadPoolExecutor(max_workers=3)
     jobs = _tlc_jobs(ctx, pool)
     n_lay, n_rand = _sz_part(ctx)
     n_lists, n_arch = _member_part(ctx)
-    _join_tlc(ctx, jobs)
+    jobs3, n_cfg = _config_part(ctx, pool)
+    _join_tlc(ctx, jobs + jobs3)
     pool.shutdown()
     ctx.ev.set(rule="(a) every 7z layout enumerated by SevenZipGen (+ random larger layouts) written, read by the real "
                     "reader and validated by TLC; (b) every member list enumerated by ArchiveGen over MT_C10 x archive "
                     "variants (ZIP stored/deflated, TAR plain/gz/bz2/xz, 7z coder x folder layout x header encoding; all "
                     "in thorough, 6 of 24 7z combinations per list in quick) x one corruption at a time; non-trivial = "
                     "distinct (format, variant, kinds)", exhaustive=ctx.thorough,
-               constants={"7z_layouts": n_lay, "7z_random_layouts": n_rand, "member_lists": n_lists, "archives": n_arch})
+               constants={"7z_layouts": n_lay, "7z_random_layouts": n_rand, "member_lists": n_lists, "archives": n_arch,
+                          "configuration_histories": n_cfg})
     ctx.ev.assume("the independent 7z writer (mbv/c10_sevenz.py) is trusted; validated against the repository fixture "
                   "(byte-identical header round trip, substream CRCs) and by independent re-extraction of every archive it writes",
                   "member documents come from the shared writers (mbv/writers); equality is on sha256 of the canonical "
